@@ -457,7 +457,17 @@ func solveOne(o *Obligation, budgetS int, cross bool) {
 	gkey := o.Fn + "/" + labelOf(o.Name)
 	tierMu.Lock()
 	hint := tierHint[gkey]
+	failedBefore := failHint[gkey]
 	tierMu.Unlock()
+	if failedBefore {
+		// the representative instantiation of this clause already failed without a proof:
+		// the siblings get a short budget (they are reported under the same violation)
+		for i := range tiers {
+			if tiers[i].budget > 5 {
+				tiers[i].budget = 5
+			}
+		}
+	}
 	if hint != "" {
 		for i, t := range tiers {
 			if t.name == hint && i > 0 {
@@ -480,6 +490,9 @@ func solveOne(o *Obligation, budgetS int, cross bool) {
 			return
 		}
 	}
+	tierMu.Lock()
+	failHint[gkey] = true
+	tierMu.Unlock()
 	// not proved: report the result of the full query
 	for _, t := range tiers {
 		if t.name == "full" {
@@ -495,6 +508,7 @@ var variantFilter string
 var (
 	tierMu   sync.Mutex
 	tierHint = map[string]string{}
+	failHint = map[string]bool{}
 )
 
 // ok reports whether the obligation is discharged.
